@@ -686,6 +686,13 @@ def classify_bool_expr(d):
                 if op == 'Ge':
                     return (short + '0', False)
             return ('unrec:count-compare', True)
+        if fa == 'capacity' and b[0] == 'const':
+            if b[2] == '18446744073709551615':
+                if op == 'Eq':
+                    return ('cap_max', True)
+                if op in ('Ne', 'Lt'):
+                    return ('cap_max', False)
+            return ('unrec:capacity-const', True)
         # a copied count (let send_count = internal.send_count; ... if send_count == 0)
         # is the same load value, so it is covered above.
         # room: Q.len < capacity
@@ -789,6 +796,8 @@ def classify_bool_expr(d):
                     return ('other_is_empty', True)
             return (lab, True)
         return None
+    if d[0] == 'param':
+        return ('arg%d' % d[1], True)
     f = ci_field_load(d)
     if f == 'recv_blocking':
         return ('recv_blocking', True)
